@@ -48,3 +48,46 @@ mut("c02-comment-first-byte", "C02", "MUST", "hclsyntax/peeker.go",
     "tok.Bytes[len(tok.Bytes)-1] == '\\n' {", "tok.Bytes[0] == '#' {", "layout.filter")
 mut("c02-keep-hassuffix", "C02", "KEEP", "hclsyntax/peeker.go",
     "if len(tok.Bytes) > 0 && tok.Bytes[len(tok.Bytes)-1] == '\\n' {", "if bytes.HasSuffix(tok.Bytes, []byte(\"\\n\")) {", "")
+
+# ---- C04 ----------------------------------------------------------------------------------------
+mut("c04-hidden-alias", "C04", "MUST", "hclsyntax/structure.go",
+    "\tif b.hiddenAttrs != nil {\n\t\tfor k, v := range b.hiddenAttrs {\n\t\t\thiddenAttrs[k] = v\n\t\t}\n\t}",
+    "\tif b.hiddenAttrs != nil {\n\t\thiddenAttrs = b.hiddenAttrs\n\t}", "hidden.fresh")
+mut("c04-remain-drops-endrange", "C04", "MUST", "hclsyntax/structure.go",
+    "\t\tSrcRange: b.SrcRange,\n\t\tEndRange: b.EndRange,\n\t}\n\n\treturn &hcl.BodyContent{", "\t\tSrcRange: b.SrcRange,\n\t}\n\n\treturn &hcl.BodyContent{", "remainder.complete")
+mut("c04-just-ignores-hidden", "C04", "MUST", "hclsyntax/structure.go",
+    "\t\tif _, hidden := b.hiddenAttrs[name]; hidden {\n\t\t\tcontinue\n\t\t}\n\t\tattrs[name] = attr.AsHCLAttribute()", "\t\tattrs[name] = attr.AsHCLAttribute()", "hidden.honoured")
+mut("c04-merged-required", "C04", "MUST", "merged.go",
+    "mergedAttrS.Required = false", "mergedAttrS.Required = attrS.Required", "merged.required")
+mut("c04-keep-rename", "C04", "KEEP", "hclsyntax/structure.go",
+    "\tif b.hiddenAttrs != nil {\n\t\tfor k, v := range b.hiddenAttrs {\n\t\t\thiddenAttrs[k] = v\n\t\t}\n\t}",
+    "\tfor name := range b.hiddenAttrs {\n\t\thiddenAttrs[name] = struct{}{}\n\t}", "")
+
+# ---- C12 ----------------------------------------------------------------------------------------
+mut("c12-replace-not-refreshed", "C12", "MUST", "hclwrite/ast_attribute.go",
+    "a.name = a.name.ReplaceWith(nameObj)", "a.name.ReplaceWith(nameObj)", "replace.refresh")
+mut("c12-remove-block-keeps-item", "C12", "MUST", "hclwrite/ast_body.go",
+    "\t\t\tn.Detach()\n\t\t\tb.items.Remove(n)\n\t\t\treturn true", "\t\t\tn.Detach()\n\t\t\treturn true", "paired")
+mut("c12-labels-clear-items", "C12", "MUST", "hclwrite/ast_block.go",
+    "\tbl.children.Clear()\n\tbl.items.Clear()", "\tbl.children.Clear()", "paired")
+mut("c12-keep-swap-order", "C12", "KEEP", "hclwrite/ast_body.go",
+    "\tnode.Detach()\n\tb.items.Remove(node)\n\treturn node.content.(*Attribute)", "\tb.items.Remove(node)\n\tnode.Detach()\n\treturn node.content.(*Attribute)", "")
+
+# ---- C13 ----------------------------------------------------------------------------------------
+mut("c13-trailing-dropped", "C13", "MUST", "json/parser.go",
+    "func parseExpression(buf []byte, filename string, start hcl.Pos) (node, hcl.Diagnostics) {\n\ttokens := scan(buf, pos{Filename: filename, Pos: start})\n\tp := newPeeker(tokens)\n\tnode, diags := parseValue(p)\n\tif len(diags) == 0 && p.Peek().Type != tokenEOF {",
+    "func parseExpression(buf []byte, filename string, start hcl.Pos) (node, hcl.Diagnostics) {\n\ttokens := scan(buf, pos{Filename: filename, Pos: start})\n\tp := newPeeker(tokens)\n\tnode, diags := parseValue(p)\n\tif len(diags) == 0 && p.Peek().Type != tokenEOF && false {", "trailing")
+mut("c13-keyword-nan", "C13", "MUST", "json/parser.go",
+    "\tcase \"undefined\", \"NaN\", \"Infinity\":\n\t\treturn nil, hcl.Diagnostics{", "\tcase \"undefined\", \"NaN\", \"Infinity\":\n\t\treturn &nullVal{SrcRange: tok.Range}, hcl.Diagnostics{", "keywords")
+mut("c13-keep-trailing-split", "C13", "KEEP", "json/parser.go",
+    "func parseExpression(buf []byte, filename string, start hcl.Pos) (node, hcl.Diagnostics) {\n\ttokens := scan(buf, pos{Filename: filename, Pos: start})\n\tp := newPeeker(tokens)\n\tnode, diags := parseValue(p)\n\tif len(diags) == 0 && p.Peek().Type != tokenEOF {",
+    "func parseExpression(buf []byte, filename string, start hcl.Pos) (node, hcl.Diagnostics) {\n\ttokens := scan(buf, pos{Filename: filename, Pos: start})\n\tp := newPeeker(tokens)\n\tnode, diags := parseValue(p)\n\tif len(diags) != 0 {\n\t\treturn node, diags\n\t}\n\tif next := p.Peek(); next.Type != tokenEOF {", "")
+
+# ---- C17 ----------------------------------------------------------------------------------------
+mut("c17-unlocked-write", "C17", "MUST", "hclsyntax/expression.go",
+    "func (e *AnonSymbolExpr) clearValue(ctx *hcl.EvalContext) {\n\te.valuesLock.Lock()\n\tdefer e.valuesLock.Unlock()\n", "func (e *AnonSymbolExpr) clearValue(ctx *hcl.EvalContext) {\n\te.valuesLock.RLock()\n\tdefer e.valuesLock.RUnlock()\n", "guard")
+mut("c17-lock-not-released", "C17", "MUST", "hclsyntax/expression.go",
+    "func (e *AnonSymbolExpr) setValue(ctx *hcl.EvalContext, val cty.Value) {\n\te.valuesLock.Lock()\n\tdefer e.valuesLock.Unlock()\n", "func (e *AnonSymbolExpr) setValue(ctx *hcl.EvalContext, val cty.Value) {\n\te.valuesLock.Lock()\n\tif ctx != nil {\n\t\tdefer e.valuesLock.Unlock()\n\t}\n", "pair.lock")
+mut("c17-keep-explicit-unlock", "C17", "KEEP", "hclsyntax/expression.go",
+    "\tif e.values == nil {\n\t\treturn\n\t}\n\tif ctx == nil {\n\t\tpanic(\"can't clearValue for a nil EvalContext\")\n\t}\n\tdelete(e.values, ctx)\n}",
+    "\tif ctx == nil {\n\t\tpanic(\"can't clearValue for a nil EvalContext\")\n\t}\n\tif e.values != nil {\n\t\tdelete(e.values, ctx)\n\t}\n}", "")
